@@ -197,6 +197,7 @@ type found struct {
 	Log         []string `json:"log"`
 	LogHash     string   `json:"log_hash"`
 	Case        any      `json:"case,omitempty"`
+	Hang        bool     `json:"hang,omitempty"`
 	Sequence    bool     `json:"sequence,omitempty"`
 	SeqWorker   int      `json:"sequence_worker,omitempty"`
 	SeqWorkers  int      `json:"sequence_workers,omitempty"`
@@ -441,7 +442,9 @@ func check(prop, tr string) int {
 			die(2, "write replay: %v", err)
 		}
 		// the replay file must reproduce in a fresh process
-		if ok, _ := replayOnce(bin, prop, tr, replayPath); !ok {
+		if ok, _ := replayOnce(bin, prop, tr, replayPath); !ok && first.Hang {
+			die(2, "a run exceeded the wall-clock guard but did not hang again in a fresh process: machine trouble, not a violation")
+		} else if !ok {
 			first.Sequence = true
 			first.SeqWorker = int(first.RunIndex % uint64(nw))
 			first.SeqWorkers = nw
